@@ -79,7 +79,12 @@ use rs_matter::dm::clusters::net_comm::{NetworkType, Networks, NetworksAccess};
 use rs_matter::dm::endpoints::{self, ROOT_ENDPOINT_ID};
 use rs_matter::dm::networks::eth::EthNetwork;
 use rs_matter::dm::networks::wireless::{NoopWirelessNetCtl, WifiNetworks};
-use rs_matter::dm::{DataModel, Node};
+use rs_matter::dm::clusters::desc::{self, ClusterHandler as _};
+use rs_matter::dm::clusters::groups::{self, ClusterHandler as _};
+use rs_matter::dm::clusters::identify::{self, IdentifyHandler};
+use rs_matter::dm::devices::DEV_TYPE_ON_OFF_LIGHT;
+use rs_matter::dm::{Async, DataModel, Dataver, Endpoint, EpClMatcher, Node};
+use rs_matter::{clusters, devices};
 use rs_matter::error::{Error, ErrorCode};
 use rs_matter::fabric::Fabric;
 use rs_matter::im::client::ImClient;
@@ -104,6 +109,8 @@ use super::{clock, Exec, Sched, Stop, SEC};
 // cluster / command ids (Matter Core spec; same values as the IDL under rs-matter-codegen)
 // ------------------------------------------------------------------------------------------
 
+pub const CL_IDENTIFY: u32 = 0x0003;
+pub const CL_GROUPS: u32 = 0x0004;
 pub const CL_ACL: u32 = 0x001F;
 pub const CL_BASIC_INFO: u32 = 0x0028;
 pub const CL_GEN_COMM: u32 = 0x0030;
@@ -242,6 +249,21 @@ pub enum Cmd {
     WriteAclFull { entries: Vec<AclSpecFull> },
     /// attribute write: replace the GroupKeyMap list of the accessing fabric: (group id, key set id)
     WriteGroupKeyMap { entries: Vec<(u16, u16)> },
+    // ---- application endpoints (only with [`boot_app`]): Groups and Identify clusters
+    /// Groups::AddGroup on endpoint `ep`
+    AddGroup { ep: u16, group: u16, name: String },
+    /// Groups::ViewGroup (the response struct is in `Outcome::Response::raw`: 0 status, 1 group id, 2 name)
+    ViewGroup { ep: u16, group: u16 },
+    /// Groups::GetGroupMembership with an empty filter (raw: 0 capacity, 1 group list)
+    GetGroupMembership { ep: u16 },
+    /// Groups::RemoveGroup
+    RemoveGroup { ep: u16, group: u16 },
+    /// Groups::RemoveAllGroups
+    RemoveAllGroups { ep: u16 },
+    /// Groups::AddGroupIfIdentifying
+    AddGroupIfIdentifying { ep: u16, group: u16, name: String },
+    /// Identify::Identify
+    Identify { ep: u16, secs: u16 },
 }
 
 /// How a [`Cmd`] goes on the wire.
@@ -276,6 +298,27 @@ impl Cmd {
             Cmd::WriteLocalConfigDisabled { .. } => "WriteLocalConfigDisabled",
             Cmd::WriteAclFull { .. } => "WriteACL",
             Cmd::WriteGroupKeyMap { .. } => "WriteGroupKeyMap",
+            Cmd::AddGroup { .. } => "AddGroup",
+            Cmd::ViewGroup { .. } => "ViewGroup",
+            Cmd::GetGroupMembership { .. } => "GetGroupMembership",
+            Cmd::RemoveGroup { .. } => "RemoveGroup",
+            Cmd::RemoveAllGroups { .. } => "RemoveAllGroups",
+            Cmd::AddGroupIfIdentifying { .. } => "AddGroupIfIdentifying",
+            Cmd::Identify { .. } => "Identify",
+        }
+    }
+
+    /// The endpoint the operation is addressed to (0 = root endpoint).
+    pub fn endpoint(&self) -> u16 {
+        match self {
+            Cmd::AddGroup { ep, .. }
+            | Cmd::ViewGroup { ep, .. }
+            | Cmd::GetGroupMembership { ep }
+            | Cmd::RemoveGroup { ep, .. }
+            | Cmd::RemoveAllGroups { ep }
+            | Cmd::AddGroupIfIdentifying { ep, .. }
+            | Cmd::Identify { ep, .. } => *ep,
+            _ => ROOT_ENDPOINT_ID,
         }
     }
 
@@ -421,6 +464,13 @@ impl Cmd {
                         .collect(),
                 ),
             },
+            Cmd::AddGroup { group, name, .. } => inv(CL_GROUPS, 0x00, vec![Field::U16(0, *group), Field::Str(1, name.clone())]),
+            Cmd::ViewGroup { group, .. } => inv(CL_GROUPS, 0x01, vec![Field::U16(0, *group)]),
+            Cmd::GetGroupMembership { .. } => inv(CL_GROUPS, 0x02, vec![Field::ArrayU64(0, vec![])]),
+            Cmd::RemoveGroup { group, .. } => inv(CL_GROUPS, 0x03, vec![Field::U16(0, *group)]),
+            Cmd::RemoveAllGroups { .. } => inv(CL_GROUPS, 0x04, vec![]),
+            Cmd::AddGroupIfIdentifying { group, name, .. } => inv(CL_GROUPS, 0x05, vec![Field::U16(0, *group), Field::Str(1, name.clone())]),
+            Cmd::Identify { secs, .. } => inv(CL_IDENTIFY, 0x00, vec![Field::U16(0, *secs)]),
             Cmd::WriteGroupKeyMap { entries } => Wire::Write {
                 cluster: CL_GRP_KEY,
                 attr: 0,
@@ -478,6 +528,7 @@ pub async fn perform<C: Crypto>(matter: &Matter<'_>, crypto: &C, sess: u32, cmd:
         Ok(e) => e,
         Err(e) => return Outcome::Transport(format!("initiate:{}", err_text(&e))),
     };
+    let endpoint = cmd.endpoint();
     match cmd.wire() {
         Wire::Invoke { cluster, cmd: cmd_id, timed, fields } => {
             let chunk = exchange
@@ -485,7 +536,7 @@ pub async fn perform<C: Crypto>(matter: &Matter<'_>, crypto: &C, sess: u32, cmd:
                     msg.timed_request(timed)?
                         .invoke_requests()?
                         .push()?
-                        .path(ROOT_ENDPOINT_ID, cluster, cmd_id)?
+                        .path(endpoint, cluster, cmd_id)?
                         .data(|w| {
                             w.start_struct(&TLVTag::Context(CmdDataTag::Data as u8))?;
                             for f in &fields {
@@ -574,7 +625,7 @@ pub async fn perform<C: Crypto>(matter: &Matter<'_>, crypto: &C, sess: u32, cmd:
                 .write_with(None, |b| {
                     b.write_requests()?
                         .push()?
-                        .path(ROOT_ENDPOINT_ID, cluster, attr)?
+                        .path(endpoint, cluster, attr)?
                         .data(|w| write_field(w, &value))?
                         .end()?
                         .end()?
@@ -728,6 +779,31 @@ pub fn fabric_summaries(matter: &Matter<'_>) -> BTreeMap<u8, String> {
     })
 }
 
+/// One row of a fabric's group table (Groups cluster): group id, name, member endpoints.
+#[derive(Debug, Clone, PartialEq, Eq, PartialOrd, Ord)]
+pub struct GroupRow {
+    pub group_id: u16,
+    pub name: String,
+    pub endpoints: Vec<u16>,
+}
+
+/// The group table of every fabric in memory, by fabric index (rows in table order).
+pub fn group_tables(matter: &Matter<'_>) -> BTreeMap<u8, Vec<GroupRow>> {
+    matter.with_state(|st| {
+        st.fabrics
+            .iter()
+            .map(|f| {
+                let rows = f
+                    .groups()
+                    .iter()
+                    .map(|g| GroupRow { group_id: g.group_id, name: g.group_name.to_string(), endpoints: g.endpoints.iter().copied().collect() })
+                    .collect();
+                (f.fab_idx().get(), rows)
+            })
+            .collect()
+    })
+}
+
 /// Boot a scratch `Matter` from a KV image (`Matter::startup`) and return its fabric table
 /// (TLV by index, summaries by index).
 pub fn fabrics_from_kv(map: &BTreeMap<u16, Vec<u8>>) -> Result<(BTreeMap<u8, Vec<u8>>, BTreeMap<u8, String>), String> {
@@ -753,6 +829,8 @@ pub struct AdminSnapshot {
     pub armed: bool,
     pub breadcrumb: u64,
     pub kv: BTreeMap<u16, Vec<u8>>,
+    /// fabric index -> group table (also part of `fabrics` / hashed in `fabric_text`)
+    pub groups: BTreeMap<u8, Vec<GroupRow>>,
 }
 
 impl AdminSnapshot {
@@ -1009,6 +1087,20 @@ pub struct RecInfo {
 const NODE_ETH: Node<'static> = Node { endpoints: &[root_endpoint!(eth)] };
 const NODE_WIFI: Node<'static> = Node { endpoints: &[root_endpoint!(wifi)] };
 
+/// Application endpoints of [`boot_app`]: each carries Descriptor, Identify and Groups.
+pub const APP_ENDPOINTS: [u16; 4] = [1, 2, 3, 4];
+
+macro_rules! app_endpoint {
+    ($id:expr) => {
+        Endpoint::new($id, devices!(DEV_TYPE_ON_OFF_LIGHT), clusters!(desc::DescHandler::CLUSTER, identify::CLUSTER, groups::GroupsHandler::CLUSTER))
+    };
+}
+
+const NODE_ETH_APP: Node<'static> =
+    Node { endpoints: &[root_endpoint!(eth), app_endpoint!(1), app_endpoint!(2), app_endpoint!(3), app_endpoint!(4)] };
+const NODE_WIFI_APP: Node<'static> =
+    Node { endpoints: &[root_endpoint!(wifi), app_endpoint!(1), app_endpoint!(2), app_endpoint!(3), app_endpoint!(4)] };
+
 static NOOP_WIFI_DIAG: NoopWirelessNetCtl = NoopWirelessNetCtl::new(NetworkType::Wifi);
 
 /// One entry of the device's subscription table (hook `InteractionModel::verif_for_each_subscription`).
@@ -1085,6 +1177,49 @@ where
                 NODE_WIFI,
                 endpoints::WifiSysHandlerBuilder::new(NoopWirelessNetCtl::new(NetworkType::Wifi), &NOOP_WIFI_DIAG).build(rand),
             );
+            go(&matter, &crypto, &buffers, &state, handler, cfg, opts, kv, net, ctrls, body)
+        }
+    }
+}
+
+/// [`boot_with`] for a device that has, besides the root endpoint, the application endpoints
+/// [`APP_ENDPOINTS`], each with the Descriptor, Identify and Groups clusters (one
+/// `IdentifyHandler` and one `GroupsHandler::new_with_identify` serve all of them, composed as in
+/// `examples/src/bin/onoff_light.rs` / `rs-matter/tests/data_model/groups.rs`). Address them with
+/// the `ep` field of `Cmd::{AddGroup, ViewGroup, GetGroupMembership, RemoveGroup, RemoveAllGroups,
+/// AddGroupIfIdentifying, Identify}`. [`boot`] / [`boot_with`] are unchanged (root endpoint only).
+pub fn boot_app<CC, R, F>(cfg: &BootCfg, opts: &BootOpts, kv: &MemKv, net: &Net, ctrls: &[Controller<CC>], body: F) -> Result<R, String>
+where
+    CC: Crypto,
+    F: for<'a> FnOnce(&mut Boot<'a, CC>) -> R,
+{
+    let matter: Box<Matter<'static>> = Box::new(new_matter(5540));
+    let crypto = mk_crypto(cfg.seed);
+    let buffers: Box<MatterBuffers> = Box::new(MatterBuffers::new());
+    let mut rand = WeakTestOnlyRand::new(cfg.seed.rotate_left(7) | 1);
+    let identify_handler = IdentifyHandler::new(Dataver::new_rand(&mut rand));
+    macro_rules! with_app {
+        ($sys:expr) => {
+            $sys.chain(EpClMatcher::new(None, Some(desc::DescHandler::CLUSTER.id)), Async(desc::DescHandler::new(Dataver::new_rand(&mut rand)).adapt()))
+                .chain(EpClMatcher::new(None, Some(identify::CLUSTER.id)), Async(identify::HandlerAdaptor(&identify_handler)))
+                .chain(
+                    EpClMatcher::new(None, Some(groups::GroupsHandler::CLUSTER.id)),
+                    Async(groups::GroupsHandler::new_with_identify(Dataver::new_rand(&mut rand), &identify_handler).adapt()),
+                )
+        };
+    }
+    match cfg.net {
+        NetKind::Eth => {
+            let state: Box<InteractionModelState<EthNetwork<'static>>> =
+                Box::new(InteractionModelState::new(EthNetwork::new_default()));
+            let sys = endpoints::EthSysHandlerBuilder::new().build(WeakTestOnlyRand::new(cfg.seed | 1));
+            let handler = (NODE_ETH_APP, with_app!(sys));
+            go(&matter, &crypto, &buffers, &state, handler, cfg, opts, kv, net, ctrls, body)
+        }
+        NetKind::Wifi => {
+            let state: Box<InteractionModelState<WifiNetworks<4>>> = Box::new(InteractionModelState::new(WifiNetworks::new()));
+            let sys = endpoints::WifiSysHandlerBuilder::new(NoopWirelessNetCtl::new(NetworkType::Wifi), &NOOP_WIFI_DIAG).build(WeakTestOnlyRand::new(cfg.seed | 1));
+            let handler = (NODE_WIFI_APP, with_app!(sys));
             go(&matter, &crypto, &buffers, &state, handler, cfg, opts, kv, net, ctrls, body)
         }
     }
@@ -1533,6 +1668,7 @@ impl<'a, CC: Crypto> Boot<'a, CC> {
             armed: self.failsafe_armed(),
             breadcrumb: self.breadcrumb(),
             kv: self.kv.snapshot(),
+            groups: group_tables(self.matter),
         }
     }
 }
